@@ -17,6 +17,17 @@ open AV
 
 def table (t : List (String × List String)) (cls : String) : List String := (alookup cls t).getD []
 
+/-- `[f(x) for x in l]` where `f` may raise: the first exception wins. -/
+def resMapM {β β' : Type} (f : β → Res β') : List β → Res (List β')
+  | [] => .ok []
+  | x :: xs =>
+    match f x with
+    | .error e => .error e
+    | .ok y =>
+      match resMapM f xs with
+      | .error e => .error e
+      | .ok ys => .ok (y :: ys)
+
 /-- `cls.__slots__`. -/
 def slotsOf (cls : String) : List String := table Gen.Slots.slots cls
 /-- parameter names of `cls.__init__` (all keyword-only). -/
@@ -43,14 +54,18 @@ def defaultOf (p : String) : Option PyVal :=
 /-- Python's binding of `**kwargs` to a keyword-only signature: an unexpected keyword or a
 missing parameter without default is a `TypeError`; the result lists the parameters in
 signature order. -/
+def bindVal (kwargs : List (String × PyVal)) (p : String) : Option PyVal :=
+  match alookup p kwargs with
+  | some v => some v
+  | none => defaultOf p
+
+def bindOne (kwargs : List (String × PyVal)) (p : String) : Res (String × PyVal) :=
+  match bindVal kwargs p with
+  | some v => .ok (p, v)
+  | none => .error (.py .typeError)
+
 def bindArgs (params : List String) (kwargs : List (String × PyVal)) : Res (List (String × PyVal)) :=
-  if (akeys kwargs).all (fun k => decide (k ∈ params)) then
-    params.mapM fun p =>
-      match alookup p kwargs with
-      | some v => .ok (p, v)
-      | none => match defaultOf p with
-                | some v => .ok (p, v)
-                | none => .error (.py .typeError)
+  if (akeys kwargs).all (fun k => decide (k ∈ params)) then resMapM (bindOne kwargs) params
   else .error (.py .typeError)
 
 /-- The value `cls.__init__` passes to `Automaton.__init__` under keyword `k`: the bound
@@ -75,7 +90,7 @@ def classInit (allowMutable : Bool) (cls : String) (kwargs : List (String × PyV
   match bindArgs (initParamsOf cls) kwargs with
   | .error e => .error e
   | .ok bound =>
-    match (superKwOf cls).mapM (superArg bound) with
+    match resMapM (superArg bound) (superKwOf cls) with
     | .error e => .error e
     | .ok kw => .ok { cls := cls, attrs := storeKwargs allowMutable kw ++ extraAttrs cls }
 
@@ -86,11 +101,13 @@ def getattr (o : Inst) (name : String) : Res PyVal :=
   | none => .error (.py .attributeError)
 
 /-- `Automaton.input_parameters`. -/
+def paramOf (o : Inst) (s : String) : Res (String × PyVal) :=
+  match getattr o s with
+  | .ok v => .ok (s, v)
+  | .error e => .error e
+
 def inputParameters (o : Inst) : Res (List (String × PyVal)) :=
-  (publicSlots o.cls).mapM fun s =>
-    match getattr o s with
-    | .ok v => .ok (s, v)
-    | .error e => .error e
+  resMapM (paramOf o) (publicSlots o.cls)
 
 /-- `Automaton.copy`: `self.__class__(**self.input_parameters)`. -/
 def copy (allowMutable : Bool) (o : Inst) : Res Inst :=
